@@ -293,10 +293,15 @@ def check(ctx, prop, modules, theorems, rule, explanation, assumptions, level="p
                     continue  # package not driven (reported above if it did not compile)
                 st["evaluations"] += 1
                 nshape += 1
-                if got != "shape=" + want:
+                def shape_eq(w, g):
+                    wt, gt = w.split(","), g[6:].split(",") if g.startswith("shape=") else None
+                    if gt is None or len(wt) != len(gt):
+                        return w == "" and g == "shape="
+                    return all((a[0] == b[0]) if a.endswith("*") else a == b for a, b in zip(wt, gt))
+                if not shape_eq(want, got):
                     if nshape <= 10**9 and len([v for v in ctx.violations if v.get("kind", "").startswith("the Go type")]) < 2:
                         ctx.violations.append({"kind": "the Go type generated for an object schema lets a required property be omitted (or forces an optional one)",
-                                               "case": cid, "type": tn, "declared (R = required, O = optional, property-name order)": want,
+                                               "case": cid, "type": tn, "declared (R = required, O = optional, n = nullable, * = nullability not compared; property-name order)": want,
                                                "generated": got, "spec": spec_of(gens, cid)})
                 else:
                     st["agree_model"] += 1
